@@ -19,13 +19,36 @@ func c19Fresh(s *SugarDB) int64 {
 	b := verifServer()
 	for db, m := range s.store {
 		for k, e := range m {
-			verifPreset(b, db, k, e.Value)
+			verifPreset(b, db, k, c19Copy(e.Value))
 			if e.ExpireAt != (time.Time{}) {
 				verifPresetExpiry(b, db, k, e.ExpireAt)
 			}
 		}
 	}
 	return b.memUsed
+}
+
+// c19Copy builds the value again from its content alone, the way a client that loads the dataset into
+// a fresh server would: nothing of how the original came about (spare capacity of a slice that grew and
+// shrank, a map that once was larger, an object shared with another key) carries over.
+func c19Copy(v interface{}) interface{} {
+	switch x := v.(type) {
+	case []string:
+		out := make([]string, len(x))
+		copy(out, x)
+		return out
+	case map[string]interface{}:
+		out := make(map[string]interface{}, len(x))
+		for f, fv := range x {
+			out[f] = fv
+		}
+		return out
+	case *set.Set:
+		return set.NewSet(x.GetAll())
+	case *ss.SortedSet:
+		return ss.NewSortedSet(x.GetAll())
+	}
+	return v
 }
 
 const (
